@@ -63,6 +63,74 @@ class Hook:
         return mat.hook(rd, e, st, ctx)
 
 
+def orthogonalised_fact(fx, f, st, D):
+    """Fact for a path that replaces the linear block of the result by U * V^T (or V * U^T) of an SVD: by Eigen's contract matrixU() and matrixV() are unitary, so the block is orthogonal; identity plus a
+    non-zero skew matrix S never is ((I + S)^T (I + S) = I - S^2), and the condition of the path bounds |block - I| from below by a positive constant that rotations of the quantifier (up to 0.1 rad) exceed.
+    Returns the message, or None when any link of the argument is missing."""
+    import math
+    bodies = [f['body']]
+    for y in walk(f['body']):
+        if isinstance(y, dict) and y.get('inrepo') and y.get('fk'):
+            g = fx.functions.get(y['fk'])
+            if g is not None and g.get('body') is not None:
+                bodies.append(g['body'])
+    polar = None
+    for b in bodies:
+        for y in walk(b):
+            if not (isinstance(y, dict) and ((y.get('k') == 'Bin' and y.get('op') == '=') or (y.get('k') == 'Op' and y.get('op') == '=' and len(y.get('args', [])) == 2))):
+                continue
+            l_, r_ = (y['l'], y['r']) if y.get('k') == 'Bin' else (y['args'][0], y['args'][1])
+            l0 = strip_casts(l_)
+            if not (l0.get('k') == 'MCall' and l0.get('m') in ('block', 'topLeftCorner', 'linear')):
+                continue
+            t_ = deep_unwrap(sx(r_))
+            if isinstance(t_, tuple) and t_[0] == '*' and len(t_) == 3:
+                a_, b_ = t_[1], t_[2]
+                if isinstance(b_, tuple) and b_[0] in ('.transpose', '.adjoint'):
+                    b_ = b_[1]
+                    if isinstance(a_, tuple) and isinstance(b_, tuple) and {a_[0], b_[0]} == {'.matrixU', '.matrixV'} and a_[1] == b_[1]:
+                        svd_t = [strip_casts(z).get('t', {}).get('s', '') for z in walk(r_) if isinstance(z, dict) and z.get('k') == 'MCall' and z.get('m') in ('matrixU', 'matrixV')]
+                        if any('SVD<' in (z.get('cls') or '') for z in walk(r_) if isinstance(z, dict) and z.get('k') == 'MCall' and z.get('m') in ('matrixU', 'matrixV')):
+                            polar = y
+    if polar is None:
+        return None
+    # the path condition: norm(block - I) > c with c > 0
+    thr = None
+    for c in st.cond:
+        node = c[3] if len(c) > 3 else None
+        if node is None or not c[2]:
+            continue
+        n0 = strip_casts(node)
+        if n0.get('k') == 'Bin' and n0.get('op') in ('>', '>=') and '.norm' in str(deep_unwrap(sx(n0['l']))) and 'Identity' in str(deep_unwrap(sx(n0['l']))):
+            thr = _number(n0['r'])
+    if thr is None or not (thr > 0):
+        return None
+    angle = thr / math.sqrt(2.0)
+    if angle >= 0.1:
+        return None
+    return ('the post-processing replaces the linear part of the returned matrix by the product of the U and V factors of an SVD - an orthogonal matrix by the library\'s contract - under a condition that holds '
+            'whenever the first-order rotation is more than %.4g rad (|I + S - I| = sqrt(2) |w| > %.4g; the quantifier goes to 0.1 rad).  Identity plus a non-zero skew matrix is never orthogonal '
+            '((I + S)^T (I + S) = I - S^2), so on this path the result is NOT identity plus skew: its diagonal is about 1 - t^2/2, and the parameters read back from it do not satisfy the normal equations' % (angle, thr))
+
+
+def _number(node):
+    """value of a constant expression made of literals, folded constants, products, quotients and sqrt"""
+    import math
+    n0 = strip_casts(node)
+    cv = const_value(n0)
+    if isinstance(cv, (int, float)) and not isinstance(cv, bool):
+        return float(cv)
+    if n0.get('k') == 'Bin' and n0.get('op') in ('*', '/', '+', '-'):
+        a_, b_ = _number(n0['l']), _number(n0['r'])
+        if a_ is None or b_ is None:
+            return None
+        return {'*': a_ * b_, '/': a_ / b_ if b_ else None, '+': a_ + b_, '-': a_ - b_}[n0['op']]
+    if n0.get('k') == 'Call' and (n0.get('fn') or '').split('::')[-1].split('<')[0] == 'sqrt' and len(n0.get('args', [])) == 1:
+        a_ = _number(n0['args'][0])
+        return math.sqrt(a_) if a_ is not None and a_ >= 0 else None
+    return None
+
+
 def read_estimate(fx, f, psize, nparam):
     H = Hook(psize, nparam)
     rd = sym.Reader(fx, call_hook=H, member_hook=mat.member_hook)
@@ -244,6 +312,18 @@ def check_estimate(fx, R, cq, cname, f, tag):
     except sym.Unsupported as u:
         R.undecided('P1', inst + ptag, 'symbolic reader: %s' % u)
         return None
+    if len(states) > 1 and len(loops) == 1 and H.x is not None:
+        # the result is post-processed on some paths: a path on which the returned matrix is no longer readable is judged by what the post-processing stores there
+        readable = [x_ for x_ in states if isinstance(x_.ret, sp.MatrixBase) and x_.ret.shape == (D + 1, D + 1)]
+        for x_ in [y_ for y_ in states if y_ not in readable]:
+            desc_ = ' && '.join(('' if c[2] else '!') + '(' + c[0] + ')' for c in x_.cond)
+            fact = orthogonalised_fact(fx, f, x_, D)
+            if fact:
+                R.violated('P1', inst + ':scatter-skew:post-processed', 'on the path [%s] %s%s' % (desc_[:160], fact, ptag), loc, 'E-ALG')
+            else:
+                R.undecided('P1', inst + ':path[%s]' % desc_[:120] + ptag, 'the returned matrix is not readable on this path (a store the reader cannot model)')
+        if len(readable) == 1:
+            states = readable
     if len(states) != 1 or len(loops) != 1 or H.x is None:
         R.undecided('P1', inst + ptag, 'body not readable as one accumulation loop followed by one solve (%d paths, %d loops)' % (len(states), len(loops)))
         return None
